@@ -440,9 +440,8 @@ def impl_restrict_fields(a):
         if g.error is not None:
             return err("GEN:" + type(g.error).__name__)
         classes = g.classes()
-        if classes["C"].__bases__[0].__name__ != "A":
-            return {"unmodelled": "the restriction base was dropped (FlattenClassExtensions.should_remove_extension)"}
-        return ok({"derived": named_shapes(classes["C"]), "base": named_shapes(classes["A"])})
+        inherits = classes["C"].__bases__[0].__name__ == "A"
+        return ok({"inherits": inherits, "derived": named_shapes(classes["C"]), "base": named_shapes(classes["A"])})
     finally:
         g.close()
 
@@ -467,7 +466,7 @@ def impl_ext_fields(a):
             return err("GEN:" + type(g.error).__name__)
         classes = g.classes()
         if classes["B"].__bases__[0].__name__ != "A":
-            return {"unmodelled": "the extension was flattened or dropped"}
+            return err("SHAPE:the extension was flattened or dropped")
         return ok([[n, [isinstance(sh, dict) and sh["default"] == "list", isinstance(sh, dict) and sh["default"] == "MISSING"]] for n, sh in named_shapes(classes["B"])])
     finally:
         g.close()
@@ -701,7 +700,7 @@ def classify_override(a, out):
 def classify_restrict(a, out):
     base = {o["name"] for o in a["base"]}
     own = [o["name"] for o in a["own"]]
-    return f"base={len(base)}/own={len(own)}/{'new-name' if any(n not in base for n in own) else 'subset'}/{'omits' if base - set(own) else 'all'}" + ("/unmodelled" if isinstance(out, dict) and "unmodelled" in out else "")
+    return f"base={len(base)}/own={len(own)}/{'new-name' if any(n not in base for n in own) else 'subset'}/{'omits' if base - set(own) else 'all'}" + ("/base-dropped" if isinstance(out, dict) and isinstance(out.get("ok"), dict) and out["ok"].get("inherits") is False else "")
 
 
 def classify_subst(a, out):
@@ -741,6 +740,38 @@ def classify_compound(a, out):
     return f"groups={min(len(big), 3)}/{'effective' if eff else 'real'}/pathlen={min(deep, 4)}/{'one-sequence' if seqs else 'mixed-sequence'}"
 
 
+# ------------------------------------------------------------------ readAttr: the strict parser on the generated class
+def gen_read_attr(rng, tier):
+    """every use x default/fixed x type, each with the attribute absent, given freely, given as the default /
+    fixed value (documents outside `allows` included: the op ties `readAttr` as a whole, not only on valid input)"""
+    for tp in ("string", None):
+        for dflt, fx in ((None, None), ("dv", None), (None, "fv"), ("x y", None)):
+            for u in (None, "optional", "required", "prohibited"):
+                d = {"kind": "attribute", "use": u, "default": dflt, "fixed": fx, "type": tp}
+                yield {"decl": d, "givens": [None, "v1", dflt or fx or "w", "two words"]}
+    for _ in range(n_cases(tier, 15, 300)):
+        d = G.gen_decl(rng, kind="attribute")
+        d.pop("enum", None)
+        d["group"] = rng.random() < 0.3
+        yield {"decl": d, "givens": [None, rng.choice(["v1", "dv", "fv", "7"]), d["default"] or d["fixed"] or "q"]}
+
+
+def impl_read_attr(a):
+    d = a["decl"]
+    try:
+        return ok(G.real_read_attr({"s.xsd": G.decls_xsd([d])}, a["givens"],
+                                   lambda x: '<t:r xmlns:t="urn:t"' + (f' d0="{G._xml_attr(x)}"' if x is not None else "") + "/>"))
+    except Exception as e:  # noqa: BLE001
+        return err("GEN:" + type(e).__name__)
+
+
+def classify_read_attr(a, out):
+    d = a["decl"]
+    res = out.get("ok") if isinstance(out, dict) else None
+    kinds = sorted({("error" if r == "ParserError" else "none" if r == [None] else "value") for r in (res or [])})
+    return f"{d['use']}{'+d' if d['default'] is not None else ''}{'+f' if d['fixed'] is not None else ''}/" + "+".join(kinds)
+
+
 def _c16():
     import props.c16 as c16
 
@@ -773,13 +804,15 @@ CORRS = [
     Corr("gen.enum_default", lambda rng, tier: _c16().gen_enum_default(rng, tier), lambda a: _c16().impl_enum_default(a),
          classify=lambda a, o: _c16().classify_enum_default(a, o),
          describe="xs:enumeration / DTD enumerations whose values collide after slugging: is_valid_enum_type placeholder and the member values field_default_enum / constant_name resolve it to vs model (shared with C16)"),
+    Corr("gen.read_attr", gen_read_attr, impl_read_attr, classify=classify_read_attr,
+         describe="readAttr (the conclusion of attribute_faithful): whole real pipeline on one xs:attribute declaration, then the real XmlParser (fail_on_unknown_attributes) on documents that omit / give the attribute (valid or not) vs readAttr (attrField d)"),
     Corr("gen.override", gen_override, impl_override,
          classify=classify_override, describe="ValidateAttributesOverrides.validate_override on constructed child/parent attrs vs model"),
     Corr("gen.restrict_attrs", gen_restrict, impl_restrict_attrs,
          classify=classify_restrict, describe="ValidateAttributesOverrides.process on a constructed class with a restriction base (validate_attrs + prohibit_parent_attrs) vs model"),
-    Corr("gen.restrict_fields", gen_restrict_fields, impl_restrict_fields, compare=lambda m, i, a: "unmodelled" in i or m == i,
+    Corr("gen.restrict_fields", gen_restrict_fields, impl_restrict_fields,
          classify=classify_restrict, describe="complexContent restriction: whole real pipeline + stand-in renderer, the dataclass fields of base and derived class vs model"),
-    Corr("gen.ext_fields", gen_ext, impl_ext_fields, canon=canon_ext_fields, compare=lambda m, i, a: "unmodelled" in i or m == i,
+    Corr("gen.ext_fields", gen_ext, impl_ext_fields, canon=canon_ext_fields,
          classify=lambda a, o: classify_particle({'particle': a['base']}, o), describe="complexContent extension: whole real pipeline + stand-in renderer, list-ness / requiredness of inherited + own fields of the derived class vs model"),
     Corr("gen.subst_sites", gen_subst_sites, impl_subst_sites, canon=canon_by_name,
          nontrivial=lambda a, o: bool(a["subs"]),
